@@ -202,18 +202,28 @@ func (rr *routingRun) checkDirect(p world.Probe, rd world.Reader, where string) 
 	}
 	// When the reference answer is a slash-adjusted hostname route, whether fox detects that candidate (and therefore
 	// does not fall back to the path-only routes) is C08's question; C01 accepts the path-only answer as well.
-	var fallback *model.MatchResult
+	var fallback, fallbackB *model.MatchResult
 	if a.Route != nil && a.TSR && a.ViaHost {
 		fb := rr.set.MatchPathOnly(p.Method, p.Path, model.MatchOpts{})
-		fallback = &fb
+		fb2 := rr.set.MatchPathOnly(p.Method, p.Path, model.MatchOpts{AllowLeadingSlashCapture: true})
+		fallback, fallbackB = &fb, &fb2
 	}
 	ok := func(o world.RouteObs, withParams bool) bool {
 		if sameDirect(o, a, withParams) || (amb && sameDirect(o, b, withParams)) {
 			return true
 		}
-		if fallback != nil && sameDirect(o, *fallback, withParams) {
+		if fallback != nil && (sameDirect(o, *fallback, withParams) || sameDirect(o, *fallbackB, withParams) ||
+			(fmtMatch(*fallback) != fmtMatch(*fallbackB) && o.Tag >= 0 && !o.TSR && (!withParams || leadingSlashValue(o.Params)))) {
 			rr.res.inc("tolerance_host_tsr_is_c08")
 			return true
+		}
+		// the converse: fox reports a slash-adjusted *hostname* candidate where the reference falls back to a path-only
+		// route; whether that candidate exists is again C08's question (known finding tsr-spurious-parent-leaf)
+		if o.Tag >= 0 && o.TSR && a.Route != nil && !a.ViaHost {
+			if r := rr.findByTag(o.Tag); r != nil && r.Pat.Host != "" {
+				rr.res.inc("tolerance_host_tsr_is_c08")
+				return true
+			}
 		}
 		// documented ambiguity: any direct match that relies on a capture starting with '/' is tolerated when the
 		// reference itself depends on that reading (the substitution round-trip below still applies)
@@ -249,7 +259,7 @@ func (rr *routingRun) checkDirect(p world.Probe, rd world.Reader, where string) 
 	for _, r := range it.Reverse(func(y func(string) bool) { y(p.Method) }, p.Host, p.Path) {
 		viaIter = r
 	}
-	if a.Route != nil && !a.TSR && !amb {
+	if a.Route != nil && !a.TSR && !amb && !(lk.Tag >= 0 && lk.TSR) {
 		if viaIter == nil || world.TagOf(viaIter) != a.Route.Tag {
 			rr.mismatch("iter.reverse", p, where, fmt.Sprintf("#%d", world.TagOf(viaIter)), fmtMatch(a))
 			return
@@ -388,8 +398,19 @@ func (rr *routingRun) checkServeDirect(p world.Probe, where string) {
 		return obs.Kind != model.KRoute
 	}
 	if a.Route != nil && a.TSR && a.ViaHost {
-		if okFor(rr.set.MatchPathOnly(p.Method, p.Path, model.MatchOpts{})) {
+		fb := rr.set.MatchPathOnly(p.Method, p.Path, model.MatchOpts{})
+		fb2 := rr.set.MatchPathOnly(p.Method, p.Path, model.MatchOpts{AllowLeadingSlashCapture: true})
+		if okFor(fb) || okFor(fb2) || (fmtMatch(fb) != fmtMatch(fb2) && obs.Kind == model.KRoute && leadingSlashValue(obs.Hit.Params)) {
 			return
+		}
+	}
+	if a.Route != nil && !a.TSR && !a.ViaHost && obs.Kind != model.KRoute {
+		// fox may have stopped at a (spurious) slash-adjusted hostname candidate instead of falling back: C08's question
+		if lk := world.ObsLookup(rr.w.R, p); lk.Tag >= 0 && lk.TSR {
+			if r := rr.findByTag(lk.Tag); r != nil && r.Pat.Host != "" {
+				rr.res.inc("tolerance_host_tsr_is_c08")
+				return
+			}
 		}
 	}
 	if !okFor(a) && !(amb && okFor(b)) && !(amb && obs.Kind == model.KRoute && leadingSlashValue(obs.Hit.Params)) {
